@@ -34,6 +34,7 @@ import (
 	"github.com/google/osv-scalibr/guidedremediation/result"
 
 	"verif/harness/hx"
+	"verif/harness/remx"
 )
 
 func hs(s string) string {
@@ -1751,6 +1752,7 @@ type pchCase struct {
 	To         []string // new version per update
 	SamePath   bool
 	ChildGroup bool `json:",omitempty"` // the child declares its own group id child.g (its parents are chain.g)
+	DirRP      []bool `json:",omitempty"` // with ExplicitRP: <relativePath>..</relativePath> (a directory) instead of ../pom.xml
 }
 
 // pchGroup is the group id Read reports for a declaration.
@@ -1798,7 +1800,11 @@ func pchPom(c pchCase, level int) string {
 		w(fmt.Sprintf("    <artifactId>level%d</artifactId>", level+1))
 		w("    <version>7.0</version>")
 		if c.ExplicitRP[level] {
-			w("    <relativePath>../pom.xml</relativePath>")
+			if len(c.DirRP) > level && c.DirRP[level] {
+				w("    <relativePath>..</relativePath>") // the directory: pom.xml inside it is meant
+			} else {
+				w("    <relativePath>../pom.xml</relativePath>")
+			}
 		}
 		w("  </parent>")
 	}
@@ -2016,6 +2022,7 @@ func genPch(r *rand.Rand) pchCase {
 		c.OmitGroup = append(c.OmitGroup, r.Intn(2) == 0)
 		c.OmitVer = append(c.OmitVer, r.Intn(2) == 0)
 		c.ExplicitRP = append(c.ExplicitRP, r.Intn(2) == 0)
+		c.DirRP = append(c.DirRP, r.Intn(3) == 0)
 	}
 	names := []string{"a", "b", "c", "d", "e", "f", "g"}
 	r.Shuffle(len(names), func(i, j int) { names[i], names[j] = names[j], names[i] })
@@ -2091,6 +2098,511 @@ func pchParentProfile(r *rand.Rand, d *pchDecl) {
 	}
 }
 
+// ---------------------------------------------------------------------------------------------- prm (remote parent, BOM import, repositories)
+
+// prmCase: a single pom.xml whose <parent> is NOT on disk but in a Maven repository (served by an in-process registry), optionally
+// importing a BOM (dependencyManagement entry of type pom, scope import) from there and naming the registry a second time in
+// <repositories>.  The remote parent declares dependencies (explicit versions), dependencyManagement entries and properties.
+// The child's entries are written with a literal version, with ${property} (defined by the child or only by the remote parent) or
+// without a version (managed by the parent's or the BOM's dependencyManagement).
+type prmDecl struct {
+	A    string
+	Ver  string // version in force
+	How  string // "lit", "cprop" (child property), "pprop" (property of the remote parent), "pmgmt" / "bom" (no <version>: managed)
+	Mgmt bool   `json:",omitempty"` // the child declares it in dependencyManagement (only lit / cprop)
+}
+type prmCase struct {
+	ParentVer   string    // version of the remote parent the child names; the registry also holds ParentVer2 (same content)
+	ParentVer2  string
+	ParentDeps  []prmDecl // dependencies the remote parent declares (literal versions); inherited by the child
+	Child       []prmDecl
+	Bom         bool // some BOM is imported (needed by How == "bom")
+	Repo        bool // <repositories> names the registry once more
+	Ups         []int
+	To          []string
+	UpParent    bool   // update the <parent> version ParentVer -> ParentVer2
+	UpBom       bool   // update the BOM import 1.0 -> 2.0 (same content)
+	UpInherited int    `json:",omitempty"` // 1 + index into ParentDeps: an update addressed to a dependency inherited from the remote parent
+	ToInherited string `json:",omitempty"`
+	// Decoy: a pom.xml lies where the default relativePath points (../pom.xml) but it is another project ("ids": other coordinates,
+	// "jar": right coordinates, packaging jar): it must be passed over, for reading and for writing, and stay byte-identical.
+	Decoy string `json:",omitempty"`
+	// ParentRepo: the remote parent names the registry in <repositories> of its own.
+	ParentRepo bool `json:",omitempty"`
+	// Bad: the registry answers with a project that cannot be the parent — "cycle" (it names itself as its parent), "jar" (the
+	// grandparent has packaging jar), "ids" (other coordinates than asked for), "missing" (404): Read must fail, nothing may be written.
+	Bad string `json:",omitempty"`
+}
+
+func (c prmCase) concrete() string {
+	b, err := json.Marshal(c)
+	must(err)
+	return "prm " + hex.EncodeToString(b)
+}
+
+func parsePrm(t []string) prmCase {
+	b, err := hex.DecodeString(t[1])
+	must(err)
+	var c prmCase
+	must(json.Unmarshal(b, &c))
+	return c
+}
+
+var registry *remx.Registry
+
+func prmPoms(c prmCase) (child string, remote map[string]string) {
+	dep := func(ind, g, a, ver, extra string) string {
+		s := ind + "<dependency>\n" + ind + "  <groupId>" + g + "</groupId>\n" + ind + "  <artifactId>" + a + "</artifactId>\n"
+		if ver != "" {
+			s += ind + "  <version>" + ver + "</version>\n"
+		}
+		return s + extra + ind + "</dependency>\n"
+	}
+	parent := func(ver string) string {
+		var par strings.Builder
+		par.WriteString("<project>\n  <modelVersion>4.0.0</modelVersion>\n")
+		switch c.Bad {
+		case "cycle":
+			par.WriteString("  <parent><groupId>reg.g</groupId><artifactId>par</artifactId><version>" + ver + "</version></parent>\n")
+		case "jar":
+			par.WriteString("  <parent><groupId>reg.g</groupId><artifactId>grand</artifactId><version>1</version></parent>\n")
+		}
+		if c.Bad == "ids" {
+			par.WriteString("  <groupId>reg.g</groupId>\n  <artifactId>somebody-else</artifactId>\n  <version>" + ver + "</version>\n  <packaging>pom</packaging>\n")
+		} else {
+			par.WriteString("  <groupId>reg.g</groupId>\n  <artifactId>par</artifactId>\n  <version>" + ver + "</version>\n  <packaging>pom</packaging>\n")
+		}
+		if c.ParentRepo {
+			par.WriteString("  <repositories>\n    <repository>\n      <id>fromparent</id>\n      <url>" + registry.URL + "/</url>\n    </repository>\n  </repositories>\n")
+		}
+		par.WriteString("  <properties>\n")
+		for _, d := range c.Child {
+			if d.How == "pprop" {
+				par.WriteString("    <p." + d.A + ">" + d.Ver + "</p." + d.A + ">\n")
+			}
+		}
+		par.WriteString("    <unused.prop>0</unused.prop>\n  </properties>\n")
+		par.WriteString("  <dependencyManagement>\n    <dependencies>\n")
+		for _, d := range c.Child {
+			if d.How == "pmgmt" {
+				par.WriteString(dep("      ", "dep.g", d.A, d.Ver, ""))
+			}
+		}
+		par.WriteString("    </dependencies>\n  </dependencyManagement>\n  <dependencies>\n")
+		for _, d := range c.ParentDeps {
+			par.WriteString(dep("    ", "dep.g", d.A, d.Ver, ""))
+		}
+		par.WriteString("  </dependencies>\n</project>\n")
+		return par.String()
+	}
+	bom := func(ver string) string {
+		var sb strings.Builder
+		sb.WriteString("<project>\n  <modelVersion>4.0.0</modelVersion>\n  <groupId>reg.g</groupId>\n  <artifactId>bom</artifactId>\n  <version>" + ver + "</version>\n  <packaging>pom</packaging>\n  <dependencyManagement>\n    <dependencies>\n")
+		for _, d := range c.Child {
+			if d.How == "bom" {
+				sb.WriteString(dep("      ", "dep.g", d.A, d.Ver, ""))
+			}
+		}
+		sb.WriteString("    </dependencies>\n  </dependencyManagement>\n</project>\n")
+		return sb.String()
+	}
+	remote = map[string]string{"reg.g:par:" + c.ParentVer: parent(c.ParentVer), "reg.g:par:" + c.ParentVer2: parent(c.ParentVer2)}
+	if c.Bad == "missing" { // the repository does not have the parent at all
+		remote = map[string]string{}
+	}
+	if c.Bom {
+		remote["reg.g:bom:1.0"] = bom("1.0")
+		remote["reg.g:bom:2.0"] = bom("2.0")
+	}
+	if c.Bad == "jar" {
+		remote["reg.g:grand:1"] = "<project>\n  <modelVersion>4.0.0</modelVersion>\n  <groupId>reg.g</groupId>\n  <artifactId>grand</artifactId>\n  <version>1</version>\n  <packaging>jar</packaging>\n</project>\n"
+	}
+	var sb strings.Builder
+	sb.WriteString("<project>\n  <modelVersion>4.0.0</modelVersion>\n  <parent>\n    <groupId>reg.g</groupId>\n    <artifactId>par</artifactId>\n    <version>" + c.ParentVer + "</version>\n  </parent>\n")
+	sb.WriteString("  <artifactId>kid</artifactId>\n  <version>1.0</version>\n")
+	if c.Repo {
+		sb.WriteString("  <repositories>\n    <repository>\n      <id>second</id>\n      <url>" + registry.URL + "/</url>\n    </repository>\n  </repositories>\n")
+	}
+	sb.WriteString("  <properties>\n")
+	for _, d := range c.Child {
+		if d.How == "cprop" {
+			sb.WriteString("    <c." + d.A + ">" + d.Ver + "</c." + d.A + ">\n")
+		}
+	}
+	sb.WriteString("    <other>x</other>\n  </properties>\n")
+	ver := func(d prmDecl) string {
+		switch d.How {
+		case "lit":
+			return d.Ver
+		case "cprop":
+			return "${c." + d.A + "}"
+		case "pprop":
+			return "${p." + d.A + "}"
+		}
+		return ""
+	}
+	sb.WriteString("  <dependencyManagement>\n    <dependencies>\n")
+	if c.Bom {
+		sb.WriteString(dep("      ", "reg.g", "bom", "1.0", "        <type>pom</type>\n        <scope>import</scope>\n"))
+	}
+	for _, d := range c.Child {
+		if d.Mgmt {
+			sb.WriteString(dep("      ", "dep.g", d.A, ver(d), ""))
+		}
+	}
+	sb.WriteString("    </dependencies>\n  </dependencyManagement>\n  <dependencies>\n")
+	for _, d := range c.Child {
+		if !d.Mgmt {
+			sb.WriteString(dep("    ", "dep.g", d.A, ver(d), ""))
+		}
+	}
+	sb.WriteString("  </dependencies>\n</project>\n")
+	return sb.String(), remote
+}
+
+// prmReqs lists Requirements() and RequirementsForUpdates (the <parent> and the BOM import among them).
+func prmReqs(m guidedremediation.VerifManifest) (string, []resolve.RequirementVersion) {
+	list := slices.Clone(m.Requirements())
+	list = append(list, m.EcosystemSpecific().(guidedremediation.VerifMavenSpecific).RequirementsForUpdates...)
+	var rs []string
+	for _, r := range list {
+		g, a := splitGA(r.Name)
+		t, _ := r.Type.GetAttr(dep.MavenArtifactType)
+		cl, _ := r.Type.GetAttr(dep.MavenClassifier)
+		o, _ := r.Type.GetAttr(dep.MavenDependencyOrigin)
+		rs = append(rs, strings.Join([]string{hs(o), hs(g), hs(a), hs(normTyp(t)), hs(cl), hs(r.Version)}, ":"))
+	}
+	sort.Strings(rs)
+	return hx.Join(rs, ","), list
+}
+
+func runPrm(c prmCase) (line string, reply string) {
+	before, ups := "-", "-"
+	reply = hx.Guard(func() string {
+		child, remote := prmPoms(c)
+		registry.Set(remote)
+		dir, err := os.MkdirTemp(scratch, "r")
+		must(err)
+		defer os.RemoveAll(dir)
+		must(os.MkdirAll(filepath.Join(dir, "kid"), 0o755))
+		must(os.WriteFile(filepath.Join(dir, "kid", "pom.xml"), []byte(child), 0o644))
+		decoy := ""
+		switch c.Decoy {
+		case "ids":
+			decoy = "<project>\n  <groupId>reg.g</groupId>\n  <artifactId>neighbour</artifactId>\n  <version>" + c.ParentVer + "</version>\n  <packaging>pom</packaging>\n  <dependencies>\n    <dependency><groupId>dep.g</groupId><artifactId>zz</artifactId><version>1.0</version></dependency>\n  </dependencies>\n</project>\n"
+		case "jar":
+			decoy = "<project>\n  <groupId>reg.g</groupId>\n  <artifactId>par</artifactId>\n  <version>" + c.ParentVer + "</version>\n  <dependencies>\n    <dependency><groupId>dep.g</groupId><artifactId>zz</artifactId><version>1.0</version></dependency>\n  </dependencies>\n</project>\n"
+		}
+		if decoy != "" {
+			must(os.WriteFile(filepath.Join(dir, "pom.xml"), []byte(decoy), 0o644))
+		}
+		rw, err := guidedremediation.VerifMavenReadWriter(registry.URL)
+		must(err)
+		m, err := rw.Read("kid/pom.xml", scalibrfs.DirFS(dir))
+		if err != nil {
+			if c.Bad != "" {
+				return "r=ok refused=1" // the expected outcome
+			}
+			return "r=readerr"
+		}
+		var reqList []resolve.RequirementVersion
+		before, reqList = prmReqs(m)
+		var pus []result.PackageUpdate
+		var us, sentTo []string
+		send := func(name, origin, typ, to string) bool {
+			for _, r := range reqList {
+				o, _ := r.Type.GetAttr(dep.MavenDependencyOrigin)
+				t, _ := r.Type.GetAttr(dep.MavenArtifactType)
+				if r.Name == name && o == origin && normTyp(t) == normTyp(typ) {
+					pus = append(pus, result.PackageUpdate{Name: r.Name, VersionFrom: r.Version, VersionTo: to, Type: r.Type.Clone()})
+					us = append(us, strings.Join([]string{hs(r.Name), hs(t), hs(""), hs(o), hs(r.Version), hs(to)}, ":"))
+					sentTo = append(sentTo, to)
+					return true
+				}
+			}
+			return false
+		}
+		for i, di := range c.Ups {
+			d := c.Child[di]
+			o := ""
+			if d.Mgmt {
+				o = "management"
+			}
+			if send("dep.g:"+d.A, o, "", c.To[i]) && (d.How == "pmgmt" || d.How == "bom") {
+				// a dependency without <version> IS its managing entry: the only way to change its requirement is a dependencyManagement
+				// entry of the pom itself (which shadows the inherited / imported one), so the management requirement of the key moves with it
+				us = append(us, strings.Join([]string{hs("dep.g:" + d.A), hs(""), hs(""), hs("management"), hs(d.Ver), hs(c.To[i])}, ":"))
+			}
+		}
+		if c.UpParent {
+			send("reg.g:par", "parent", "pom", c.ParentVer2)
+		}
+		if c.UpBom && c.Bom {
+			send("reg.g:bom", "management", "pom", "2.0")
+		}
+		if c.UpInherited > 0 {
+			send("dep.g:"+c.ParentDeps[c.UpInherited-1].A, "", "", c.ToInherited)
+		}
+		ups = hx.Join(us, ",")
+		out := filepath.Join(dir, "kid", "pom.xml")
+		if err := rw.Write(m, scalibrfs.DirFS(dir), []result.Patch{{PackageUpdates: pus}}, out); err != nil {
+			return "r=err"
+		}
+		b, err := os.ReadFile(out)
+		if err != nil {
+			return "r=ok-nofile"
+		}
+		if decoy != "" {
+			if d, err := os.ReadFile(filepath.Join(dir, "pom.xml")); err != nil || string(d) != decoy {
+				return "r=ok-decoy-touched"
+			}
+		}
+		rw2, err := guidedremediation.VerifMavenReadWriter(registry.URL) // a fresh client: nothing cached from the first read
+		must(err)
+		m2, err := rw2.Read("kid/pom.xml", scalibrfs.DirFS(dir))
+		if err != nil {
+			return "r=ok-rereaderr"
+		}
+		after, _ := prmReqs(m2)
+		applied := ""
+		for _, to := range sentTo {
+			applied += hx.B(strings.Count(string(b), ">"+to+"<") > strings.Count(child, ">"+to+"<"))
+		}
+		if applied == "" {
+			applied = "-"
+		}
+		id := "-"
+		if len(pus) == 0 {
+			id = hx.B(string(b) == child)
+		}
+		return fmt.Sprintf("r=ok chain=%s applied=%s id=%s", after, applied, id)
+	})
+	return c.concrete() + " " + ups + " " + before, reply
+}
+
+func genPrm(r *rand.Rand) prmCase {
+	c := prmCase{ParentVer: []string{"1", "3.1"}[r.Intn(2)], Repo: r.Intn(3) == 0}
+	c.ParentVer2 = map[string]string{"1": "2", "3.1": "3.2"}[c.ParentVer]
+	names := []string{"a", "b", "c", "d", "e", "f", "g", "h"}
+	r.Shuffle(len(names), func(i, j int) { names[i], names[j] = names[j], names[i] })
+	k := 0
+	for n := r.Intn(3); n > 0; n-- {
+		c.ParentDeps = append(c.ParentDeps, prmDecl{A: names[k], Ver: pomVers[r.Intn(6)], How: "lit"})
+		k++
+	}
+	for n := 1 + r.Intn(4); n > 0 && k < len(names); n-- {
+		d := prmDecl{A: names[k], Ver: pomVers[r.Intn(6)], How: []string{"lit", "lit", "cprop", "pprop", "pmgmt", "bom"}[r.Intn(6)]}
+		if (d.How == "lit" || d.How == "cprop") && r.Intn(4) == 0 {
+			d.Mgmt = true
+		}
+		if d.How == "bom" {
+			c.Bom = true
+		}
+		c.Child = append(c.Child, d)
+		k++
+	}
+	if r.Intn(4) == 0 {
+		c.Bom = true
+	}
+	for i := range c.Child {
+		if r.Intn(2) == 0 {
+			c.Ups = append(c.Ups, i)
+			c.To = append(c.To, pomTo[r.Intn(len(pomTo))])
+		}
+	}
+	c.UpParent = r.Intn(4) == 0
+	c.UpBom = c.Bom && r.Intn(3) == 0
+	if len(c.ParentDeps) > 0 && r.Intn(3) == 0 {
+		c.UpInherited = 1 + r.Intn(len(c.ParentDeps))
+		c.ToInherited = pomTo[r.Intn(len(pomTo))]
+	}
+	if r.Intn(3) == 0 {
+		c.Decoy = []string{"ids", "jar"}[r.Intn(2)]
+	}
+	c.ParentRepo = r.Intn(4) == 0
+	if r.Intn(12) == 0 {
+		c.Bad = []string{"cycle", "jar", "ids", "missing"}[r.Intn(4)]
+	}
+	return c
+}
+
+// ---------------------------------------------------------------------------------------------- nws (npm workspaces)
+
+// nwsCase: a root package.json with "workspaces" (a glob or explicit directories) and one to three workspace packages, each a
+// package.json of its own with dependencies — on registry packages, on a sibling workspace, on what the root requires too.  The root
+// may depend on a workspace by name.  Read reports the root's requirements plus one "<name>:workspace" requirement per workspace;
+// Write rewrites the ROOT file only.  Specification verdict only (as pch): re-read = substitute(requirements before, updates), the
+// workspace files stay byte-identical, and in the root file only values change.
+type nwsPkg struct {
+	Dir  string
+	Name string
+	Deps [][2]string
+	Dev  [][2]string `json:",omitempty"`
+}
+type nwsCase struct {
+	Glob     bool // "workspaces": ["packages/*"] instead of the directories one by one
+	Root     [3][][2]string // dev, optional, regular
+	Pkgs     []nwsPkg
+	Ups      [][3]string // name, from, to
+	SamePath bool
+}
+
+func (c nwsCase) concrete() string {
+	b, err := json.Marshal(c)
+	must(err)
+	return "nws " + hex.EncodeToString(b)
+}
+
+func parseNws(t []string) nwsCase {
+	b, err := hex.DecodeString(t[1])
+	must(err)
+	var c nwsCase
+	must(json.Unmarshal(b, &c))
+	return c
+}
+
+func nwsJSON(name string, secs [3][][2]string, workspaces []string) string {
+	var sb strings.Builder
+	sb.WriteString("{\n  \"name\": " + jsonStr(name) + ",\n  \"version\": \"1.0.0\"")
+	if workspaces != nil {
+		var ws []string
+		for _, w := range workspaces {
+			ws = append(ws, jsonStr(w))
+		}
+		sb.WriteString(",\n  \"workspaces\": [" + strings.Join(ws, ", ") + "]")
+	}
+	for i, key := range []string{"devDependencies", "optionalDependencies", "dependencies"} {
+		if len(secs[i]) == 0 {
+			continue
+		}
+		var es []string
+		for _, e := range secs[i] {
+			es = append(es, "    "+jsonStr(e[0])+": "+jsonStr(e[1]))
+		}
+		sb.WriteString(",\n  \"" + key + "\": {\n" + strings.Join(es, ",\n") + "\n  }")
+	}
+	sb.WriteString("\n}\n")
+	return sb.String()
+}
+
+var nwsValue = regexp.MustCompile(`": "[^"]*"`)
+
+func runNws(c nwsCase) (line string, reply string) {
+	before, ups := "-", "-"
+	reply = hx.Guard(func() string {
+		dir, err := os.MkdirTemp(scratch, "w")
+		must(err)
+		defer os.RemoveAll(dir)
+		var ws []string
+		files := map[string]string{}
+		for _, p := range c.Pkgs {
+			ws = append(ws, p.Dir)
+			files[p.Dir+"/package.json"] = nwsJSON(p.Name, [3][][2]string{p.Dev, nil, p.Deps}, nil)
+		}
+		if c.Glob {
+			ws = []string{"packages/*"}
+		}
+		src := nwsJSON("root", c.Root, ws)
+		files["package.json"] = src
+		for f, b := range files {
+			must(os.MkdirAll(filepath.Dir(filepath.Join(dir, "in", f)), 0o755))
+			must(os.WriteFile(filepath.Join(dir, "in", f), []byte(b), 0o644))
+		}
+		rw, err := guidedremediation.VerifNpmReadWriter()
+		must(err)
+		m, err := rw.Read("in/package.json", scalibrfs.DirFS(dir))
+		if err != nil {
+			return "r=readerr"
+		}
+		before = npmReqs(m)
+		nloc := len(m.LocalManifests())
+		var pus []result.PackageUpdate
+		var us []string
+		for _, u := range c.Ups {
+			pus = append(pus, result.PackageUpdate{Name: u[0], VersionFrom: u[1], VersionTo: u[2], Type: dep.NewType()})
+			us = append(us, hs(u[0])+":~:"+hs(u[1])+":"+hs(u[2]))
+		}
+		ups = hx.Join(us, ",")
+		outRel := "out/package.json"
+		if c.SamePath {
+			outRel = "in/package.json"
+		}
+		if !c.SamePath { // the workspace files next to the new root, so that the result can be read back
+			for f, b := range files {
+				if f != "package.json" {
+					must(os.MkdirAll(filepath.Dir(filepath.Join(dir, "out", f)), 0o755))
+					must(os.WriteFile(filepath.Join(dir, "out", f), []byte(b), 0o644))
+				}
+			}
+		}
+		if err := rw.Write(m, scalibrfs.DirFS(dir), []result.Patch{{PackageUpdates: pus}}, filepath.Join(dir, filepath.FromSlash(outRel))); err != nil {
+			return "r=err"
+		}
+		b, err := os.ReadFile(filepath.Join(dir, filepath.FromSlash(outRel)))
+		if err != nil {
+			return "r=ok-nofile"
+		}
+		m2, err := rw.Read(outRel, scalibrfs.DirFS(dir))
+		if err != nil {
+			return "r=ok-rereaderr"
+		}
+		same := true
+		for f, want := range files {
+			if f == "package.json" {
+				continue
+			}
+			got, err := os.ReadFile(filepath.Join(dir, filepath.Dir(outRel), f))
+			same = same && err == nil && string(got) == want
+		}
+		rest := nwsValue.ReplaceAllString(string(b), `": ""`) == nwsValue.ReplaceAllString(src, `": ""`)
+		return fmt.Sprintf("r=ok wreqs=%s same=%s rest=%s locals=%d", npmReqs(m2), hx.B(same), hx.B(rest), nloc)
+	})
+	return c.concrete() + " " + ups + " " + before, reply
+}
+
+func genNws(r *rand.Rand) nwsCase {
+	c := nwsCase{Glob: r.Intn(2) == 0, SamePath: r.Intn(2) == 0}
+	regs := []string{"lodash", "socket.io", "@scope/beta", "left-pad", "a.b", "chalk"}
+	vers := []string{"^1.0.0", "~1.2.3", "1.0.0", ">=2.0.0 <3.0.0", "*", "^0.4.1"}
+	n := 1 + r.Intn(3)
+	wsNames := []string{"ws-a", "@mono/ws.b", "ws-c"}
+	for i := 0; i < n; i++ {
+		p := nwsPkg{Dir: "packages/" + []string{"a", "b", "c"}[i], Name: wsNames[i]}
+		for _, j := range r.Perm(len(regs))[:r.Intn(3)] {
+			p.Deps = append(p.Deps, [2]string{regs[j], vers[r.Intn(len(vers))]})
+		}
+		if i > 0 && r.Intn(2) == 0 { // a sibling workspace, as a regular or a dev dependency
+			e := [2]string{wsNames[r.Intn(i)], []string{"*", "^1.0.0", "1.0.0"}[r.Intn(3)]}
+			if r.Intn(2) == 0 {
+				p.Dev = append(p.Dev, e)
+			} else {
+				p.Deps = append(p.Deps, e)
+			}
+		}
+		c.Pkgs = append(c.Pkgs, p)
+	}
+	perm := r.Perm(len(regs))
+	k := 0
+	for si := 0; si < 3; si++ {
+		for m := r.Intn(3); m > 0 && k < len(perm); m-- {
+			c.Root[si] = append(c.Root[si], [2]string{regs[perm[k]], vers[r.Intn(len(vers))]})
+			k++
+		}
+	}
+	if r.Intn(2) == 0 { // the root uses one of its workspaces
+		si := r.Intn(3)
+		c.Root[si] = append(c.Root[si], [2]string{wsNames[r.Intn(n)], []string{"*", "^1.0.0"}[r.Intn(2)]})
+	}
+	for si := 0; si < 3; si++ {
+		for _, e := range c.Root[si] {
+			if !slices.Contains(wsNames, e[0]) && r.Intn(2) == 0 {
+				c.Ups = append(c.Ups, [3]string{e[0], e[1], npmTo[r.Intn(len(npmTo))]})
+			}
+		}
+	}
+	return c
+}
+
 // ---------------------------------------------------------------------------------------------- main
 
 func must(err error) {
@@ -2106,6 +2618,7 @@ func main() {
 	var err error
 	scratch, err = os.MkdirTemp("", "c13gen")
 	must(err)
+	registry = remx.NewRegistry()
 	defer os.RemoveAll(scratch)
 
 	emitNpm := func(c npmCase) {
@@ -2142,6 +2655,12 @@ func main() {
 			case "pch":
 				line, reply := runPch(parsePch(t))
 				out.Emit(line, reply)
+			case "prm":
+				line, reply := runPrm(parsePrm(t))
+				out.Emit(line, reply)
+			case "nws":
+				line, reply := runNws(parseNws(t))
+				out.Emit(line, reply)
 			case "pom", "pomc", "pomd", "pome", "pomf":
 				before, reply := runPom(parsePom(t), t[0][3:])
 				out.Emit(strings.Join(t[:5], " ")+" "+before, reply)
@@ -2174,6 +2693,15 @@ func main() {
 	}
 	for i := 0; i < o.N/8; i++ {
 		line, reply := runPch(genPch(r))
+		out.Emit(line, reply)
+	}
+	rp := rand.New(rand.NewSource(o.Seed*104729 + 7))
+	for i := 0; i < o.N/8; i++ {
+		line, reply := runPrm(genPrm(rp))
+		out.Emit(line, reply)
+	}
+	for i := 0; i < o.N/8; i++ {
+		line, reply := runNws(genNws(rp))
 		out.Emit(line, reply)
 	}
 }
